@@ -665,16 +665,6 @@ private theorem stdioValue_other (H : List Text) (st : StdioSt) (v : Json) (c : 
   · split <;> rfl
   · split <;> rfl
 
-private theorem stdioValues_other (H : List Text) (c : Nat) (vs : List Json) (st : StdioSt)
-    (h : vs.any (valueAddressed c) = false) : (vs.foldl (stdioValue H) st).tbl.got c = st.tbl.got c := by
-  induction vs generalizing st with
-  | nil => rfl
-  | cons v vs ih =>
-    simp only [List.any_cons, Bool.or_eq_false_iff] at h
-    simp only [List.foldl_cons]
-    rw [ih _ h.2]
-    exact stdioValue_other H st v c h.1
-
 private theorem stdioValue_sim (H : List Text) (c : Nat) (s1 s2 : StdioSt) (v : Json) (h : StdioSim c s1 s2) :
     StdioSim c (stdioValue H s1 v) (stdioValue H s2 v) := by
   obtain ⟨h1, h2, h3, h4⟩ := h
@@ -895,7 +885,53 @@ example : (stdioRun ⟨none, true, .resync⟩ [] { tbl := Table.init [2, 3] }
       .packed [wfResult 2 (.obj []), wfResult 3 (.obj [])],
       .value (.obj [(t!"jsonrpc", .str t!"2.0"), (t!"id", .str t!"2"), (t!"result", .null)]), .truncated,
       .value (wfResult 3 (.obj []))] ++ [.value (wfResult 2 (.obj [(t!"nextCursor", .str t!"a")]))])).tbl.got 2
-      = some (.ok (.obj [(t!"nextCursor", .str t!"a")])) := by
-  sorry
+      = some (.ok (.obj [(t!"nextCursor", .str t!"a")])) :=
+  C07_resync_stdio _ rfl [] _ 2 rfl (by simp [Table.init]) rfl _ (by decide) _
+
+/-! ## the tree as it is -/
+
+/-- In the good region of the family (no line limit, guarded latch, line-reading stdio loop) no reader ever stops:
+    `C07_total` in full, for every stream of every background reader. -/
+theorem C07_total (F : Facts) (hF : F.good = true) (H : List Text) :
+    (∀ ls, (getRun F H {} ls).halt = none) ∧
+    (∀ ids ls, (legRun F { tbl := Table.init ids } ls).halt = none) ∧
+    (∀ ids fs, (stdioRun F H { tbl := Table.init ids } fs).halt = none) := by
+  simp only [Facts.good, Bool.and_eq_true, Option.isNone_iff_eq_none, beq_iff_eq] at hF
+  exact ⟨fun ls => C07_alive_get F hF.1.1 H ls {} rfl,
+    fun ids ls => C07_total_legacy F hF.1.2 ls _ rfl,
+    fun ids fs => C07_total_stdio F hF.2 H fs _ rfl⟩
+
+/-- the facts regenerated from the source on this run lie in the good region: the GET reader has no line limit, the
+    endpoint latch is closed under a guard, the stdio loop is a line reader -/
+theorem C07_facts_good : Mcp.Gen.rdFacts.good = true := by decide
+
+private theorem facts_here : Mcp.Gen.rdFacts.getLimit = none ∧ Mcp.Gen.rdFacts.latchGuarded = true ∧
+    Mcp.Gen.rdFacts.stdioOnError = .resync := by
+  have h := C07_facts_good
+  simp only [Facts.good, Bool.and_eq_true, Option.isNone_iff_eq_none, beq_iff_eq] at h
+  exact ⟨h.1.1, h.1.2, h.2⟩
+
+/-- the tree as it is: no stream stops, crashes or wedges any of the three background readers -/
+theorem C07_total_here (H : List Text) :
+    (∀ ls, (getRun Mcp.Gen.rdFacts H {} ls).halt = none) ∧
+    (∀ ids ls, (legRun Mcp.Gen.rdFacts { tbl := Table.init ids } ls).halt = none) ∧
+    (∀ ids fs, (stdioRun Mcp.Gen.rdFacts H { tbl := Table.init ids } fs).halt = none) :=
+  C07_total _ C07_facts_good H
+
+/-- the tree as it is: garbage of any kind before a well-formed frame never prevents its delivery, on any of the three
+    shared streams -/
+theorem C07_resync_here (H : List Text) :
+    (∀ (g : List Line) method params, method ∈ H → ∀ n,
+      (getRun Mcp.Gen.rdFacts H {} (g ++ getEvent (wfNote method params) n)).notes =
+        (getRun Mcp.Gen.rdFacts H {} g).notes ++ [(method, .obj params)]) ∧
+    (∀ (ids : List Nat) (c : Nat), c ∈ ids → c < 1000000 → ∀ (g : List Line), (∀ l ∈ g, legLineAddressed c l = false) → ∀ r n,
+      (legRun Mcp.Gen.rdFacts { tbl := Table.init ids } (g ++ legEvent (wfResult c r) n)).tbl.got c = some (.ok r)) ∧
+    (∀ (ids : List Nat) (c : Nat), c ∈ ids → ∀ (g : List Frame), (∀ f ∈ g, stdioAddressed c f = false) → ∀ o,
+      (stdioRun Mcp.Gen.rdFacts H { tbl := Table.init ids } (g ++ [.value (wfResult c (.obj o))])).tbl.got c =
+        some (.ok (.obj o))) := by
+  obtain ⟨h1, h2, h3⟩ := facts_here
+  exact ⟨fun g method params hm n => C07_resync_get _ h1 H {} rfl g method params hm n,
+    fun ids c hc hlt g hg r n => C07_resync_legacy _ h2 _ c hlt rfl (by simpa [Table.init] using hc) rfl rfl g hg r n,
+    fun ids c hc g hg o => C07_resync_stdio _ h3 H _ c rfl (by simpa [Table.init] using hc) rfl g hg o⟩
 
 end Mcp.Props.C07
